@@ -43,6 +43,7 @@ func newMix(cfg SessCfg, polA int) *Mix {
 	m.RRand = sim.NewRand(cfg.SeedB)
 	rnd := func(n int) []byte { b := make([]byte, n); m.RRand.Read(b); return append([]byte{}, b...) }
 	m.R = ref.NewParty(uint16(cfg.V), refKey(cfg.KeyB), rnd)
+	m.R.PadFirst, m.R.FirstKeyID = cfg.RPad, uint32(cfg.RKid)
 	m.Obs = ref.NewObserver(2)
 	m.Obs.Long[0] = refKey(cfg.KeyA).PubBytes()
 	m.Obs.Long[1] = m.R.Key.PubBytes()
@@ -182,8 +183,12 @@ func runC10Interop(sc *IopScript) *sim.Outcome {
 		polA = sim.PolWSStart
 	}
 	m := newMix(sc.Cfg, polA)
-	m.R.FirstKeyID = uint32(sc.KID)
-	m.R.PadFirst = sc.Pad
+	if sc.KID > 0 {
+		m.R.FirstKeyID = uint32(sc.KID)
+	}
+	if sc.Pad > 0 {
+		m.R.PadFirst = sc.Pad
+	}
 	if sc.Pad > 0 {
 		o.Class("padding-before-other-records")
 	}
